@@ -118,6 +118,15 @@ def _observe(ctx: Any, ip: Any, hist: Dict[str, Any], country: str, env_value: O
     if near:
         ctx.distinct("nontrivial", case)
         ctx.sample({"country": country, "period": period, "rows": [{k: r[k] for k in ("t", "ts", "type")} for r in hist["rows"]], "flags": [(f.event, f.lot, f.long) for f in trace]})
+    # the split of the yearly summary lines follows the same flags: a (year, type, long/short) line exists exactly when some
+    # fraction carries that key
+    from rpv.drive_inproc import yearly_of
+
+    keys_of_fractions = {(model.events[f.event].ts.year, f.event_type, f.long) for f in trace if f.event in model.events}
+    keys_of_lines = {(y[0], y[2], y[3]) for y in yearly_of(res.computed)}
+    ctx.count("yearly_line_splits_checked", len(keys_of_lines))
+    if keys_of_fractions != keys_of_lines:
+        violations.append({"rule": "longshort.yearly-line-split-differs-from-the-fraction-flags", "detail": {"only_in_lines": sorted(map(str, keys_of_lines - keys_of_fractions))[:4], "only_in_fractions": sorted(map(str, keys_of_fractions - keys_of_lines))[:4]}})
     for v in violations:
         ctx.violation(v["rule"], v["detail"], case)
 
